@@ -22,6 +22,10 @@ Monitors
                        from the same spec for that one question; the normalised answers (type name + canonical value) or
                        the exception types must agree
   hist.repeat          the same question asked twice on A (first time in the history / again at the end) has one answer
+  hist.parent-cache    two hierarchies sharing their upper levels (ids, types, placements) but reaching differently far down, built in one
+                       process in either order, with nothing / an eviction storm / a cache_clear in between: has_ancestor_of_type,
+                       the lift to every type and the chain depth of each equal what the construction says (liftmodel), whichever
+                       was built or asked first (the process-wide Parent memo must not hand one hierarchy's ancestry to the other)
   hist.anchor          after the history, A still describes the spec it was built from (blocks, strand, identifiers,
                        qualifiers, explicit guid, spliced sequence): catches answers leaking from *another* object through a
                        memo that is shared too widely (a fault that would pollute A and its fresh twin alike)
@@ -83,13 +87,13 @@ RULE = (
 )
 SCOPE = {
     # roots per shard (16 shards); every root brings its children / CDS / parents along as further targets
-    "quick": {"NH": 3, "roots": {"loc": 6, "seq": 2, "codon": 1, "tx": 4, "cds": 4, "feat": 2, "var": 1, "gene": 3, "fcoll": 1, "vcoll": 1, "coll": 2},
+    "quick": {"NH": 3, "pcache": 40, "roots": {"loc": 6, "seq": 2, "codon": 1, "tx": 4, "cds": 4, "feat": 2, "var": 1, "gene": 3, "fcoll": 1, "vcoll": 1, "coll": 2},
               "qcap": {"leaf": 150, "mid": 130, "coll": 80}, "opcap": {"leaf": 90, "mid": 70, "coll": 40}},
-    "thorough": {"NH": 8, "roots": {"loc": 40, "seq": 12, "codon": 4, "tx": 24, "cds": 24, "feat": 12, "var": 6, "gene": 14, "fcoll": 6, "vcoll": 5, "coll": 7},
+    "thorough": {"NH": 8, "pcache": 400, "roots": {"loc": 40, "seq": 12, "codon": 4, "tx": 24, "cds": 24, "feat": 12, "var": 6, "gene": 14, "fcoll": 6, "vcoll": 5, "coll": 7},
                  "qcap": {"leaf": 400, "mid": 320, "coll": 220}, "opcap": {"leaf": 200, "mid": 150, "coll": 80}},
 }
 FLOOR = {"quick": 8000, "thorough": 12000}
-REQUIRED_MONITORS = ["hist.twin", "hist.repeat", "hist.anchor", "ops.operand-unchanged", "ops.argument-unchanged", "ops.equal-to-twin"]
+REQUIRED_MONITORS = ["hist.parent-cache", "hist.twin", "hist.repeat", "hist.anchor", "ops.operand-unchanged", "ops.argument-unchanged", "ops.equal-to-twin"]
 _I = "inscripta.biocantor."
 REACH = [  # (gene / location modules first: importing parent.parent before location runs into the package's import cycle)
     _I + "gene.interval:AbstractFeatureInterval._merge_qualifiers",
@@ -473,6 +477,165 @@ def cases(spec, ctx):
         c["qcap"] = sc["qcap"][grp]
         c["opcap"] = sc["opcap"][grp]
         yield c
+    prng = random.Random(f"C10-pcache:{ctx.seed}:{spec['i']}")
+    for _ in range(sc["pcache"]):
+        yield rand_pcache_case(prng)
+
+
+# --------------------------------------------------------------------------------------------------------------
+# parent-cache ancestry leg: two hierarchies that share their upper levels (ids, types, placements) but differ in how far their
+# ancestry reaches, built in one process in either order, with or without evictions / clears in between.  Every answer about
+# ancestry (has_ancestor_of_type, lift to every type, chain depth) is known by construction (bcv.models.liftmodel).
+# --------------------------------------------------------------------------------------------------------------
+def rand_pcache_case(rng):
+    depth = rng.choice([2, 2, 3, 4])
+    n = rng.choice([200, 1000, 5000])
+    levels = []
+    m = n
+    for _ in range(depth):
+        a = rng.randint(0, m // 3)
+        b = rng.randint(max(a + 8, 2 * m // 3), m)
+        levels.append([[[a, b]], rng.choice("+-")])
+        m = b - a
+    xa = rng.randint(0, m - 2)
+    xb = rng.randint(xa + 1, m)
+    style = rng.choice(["kwarg-chain", "kwarg-chain", "kwarg-chain", "location-parent"])
+    return {"kind": "pcache", "style": style, "n": n, "levels": levels, "x": [[xa, xb]], "xstrand": rng.choice("+-"),
+            "cut": rng.randint(1, depth - 1), "order": rng.choice(["deep-first", "shallow-first"]),
+            "between": rng.choice(["nothing", "nothing", "evict-storm", "cache-clear"]), "ask_first": rng.random() < 0.5,
+            "tag": rng.choice(["", "", "b", "c"])}
+
+
+def _pcache_build(case, start):
+    """kwarg-chain: levels start..depth as Parent(id, sequence_type, location=<placement of the next level>, parent=<level below>);
+    the child location sits on the top level.  (The construction of the repository's own nested-Parent tests.)"""
+    import inscripta.biocantor.location.location_impl  # noqa: F401
+    from bcv.gen import loc as G
+    from inscripta.biocantor.parent import Parent
+
+    depth = len(case["levels"])
+    tag = case["tag"]
+    p = None
+    for k in range(start, depth):
+        blocks, strand = case["levels"][k]          # placement of level k+1 on level k
+        p = Parent(id=f"P{k}{tag}", sequence_type=f"type{k}", location=G.build([tuple(b) for b in blocks], strand), parent=p)
+    top = Parent(id=f"P{depth}{tag}", sequence_type=f"type{depth}", parent=p)
+    return G.build([tuple(b) for b in case["x"]], case["xstrand"], parent=top)
+
+
+def _pcache_build_locparent(case, extended):
+    """location-parent: the innermost call of seq_chunk_to_parent, Parent(location=SingleInterval(cs, ce, strand, parent=<chromosome>)),
+    with a plain chromosome Parent or one that has an ancestor of its own."""
+    import inscripta.biocantor.location.location_impl  # noqa: F401
+    from bcv.gen import loc as G
+    from inscripta.biocantor.parent import Parent
+
+    tag = case["tag"]
+    (a, b), = case["levels"][0][0]
+    chrom = (Parent(id="chr1" + tag, sequence_type="chromosome", parent=Parent(id="asm" + tag, sequence_type="assembly")) if extended
+             else Parent(id="chr1" + tag, sequence_type="chromosome"))
+    return Parent(location=G.build([(a, b)], case["levels"][0][1], parent=chrom))
+
+
+def _pcache_observe(x, types):
+    out = {}
+    for t in types:
+        out["has:" + t] = _ptry(lambda: x.has_ancestor_of_type(t))
+        r = _ptry(lambda: x.lift_over_to_first_ancestor_of_type(t))
+        if r[0] == "ok":
+            rd = PM.read_location(r[1])
+            r = ("ok", [[list(b) for b in rd[0]], rd[1], r[1].parent.id if r[1].parent is not None else None] if rd else "empty")
+        out["lift:" + t] = list(r)
+    d, q = 0, x.parent
+    while q is not None:
+        d, q = d + 1, q.parent
+    out["depth"] = d
+    return out
+
+
+def _ptry(fn):
+    try:
+        return ("ok", fn())
+    except Exception as e:  # noqa: BLE001
+        return ("raised", type(e).__name__)
+
+
+def run_pcache(case, ctx):
+    from bcv.models import liftmodel as HM
+    from inscripta.biocantor.parent import Parent
+
+    depth = len(case["levels"])
+    cut = case["cut"]
+    style = case["style"]
+    ctx.note(("pcache", style, depth, cut, case["order"], case["between"], case["ask_first"], tuple(st for _, st in case["levels"]), case["xstrand"]),
+             nontrivial=True, klass="pcache-" + style)
+    if style == "location-parent":
+        types = ["assembly", "chromosome"]
+        want = {False: {"has:assembly": False, "has:chromosome": True}, True: {"has:assembly": True, "has:chromosome": True}}
+        seq = [True, False] if case["order"] == "deep-first" else [False, True]
+        objs = {}
+        for k, ext in enumerate(seq):
+            objs[ext] = _pcache_build_locparent(case, ext)
+            if k == 0:
+                _pcache_between(ctx, case)
+        args = {ext: o.location for ext, o in objs.items()}
+        for ext, o in objs.items():
+            got = {"has:" + t: o.location.parent.has_ancestor_of_type(t) for t in types}
+            ctx.check("hist.parent-cache", got == want[ext], key=("location-parent", "extended" if ext else "plain", case["order"]),
+                      style=style, built="extended" if ext else "plain", order=case["order"], between=case["between"], got=got, want=want[ext],
+                      same_object_as_other=objs[True] is objs[False],
+                      constructor_args_compare_equal=bool(args[True] == args[False]), constructor_args_hash_equal=hash(args[True]) == hash(args[False]))
+        return
+    H = HM.Hier(case["n"], [(bl, st) for bl, st in case["levels"]])
+    PX = PM.positions([tuple(b) for b in case["x"]], case["xstrand"])
+    tag = case["tag"]
+
+    def expected(start):
+        out = {}
+        for k in range(depth + 1):
+            t = f"type{k}"
+            if k < start:
+                out["has:" + t] = ("ok", False)
+                out["lift:" + t] = ["raised", "NoSuchAncestorException"]
+            else:
+                P, st = H.lift(PX, case["xstrand"], depth, k)
+                out["has:" + t] = ("ok", True)
+                out["lift:" + t] = ["ok", [[list(b) for b in PM.runs(P)], st, f"P{k}{tag}"]]
+        out["depth"] = depth - start + 1
+        return out
+
+    types = [f"type{k}" for k in range(depth + 1)]
+    seq = [0, cut] if case["order"] == "deep-first" else [cut, 0]
+    objs = {}
+    for k, start in enumerate(seq):
+        objs[start] = _pcache_build(case, start)
+        if k == 0:
+            if case["ask_first"]:
+                got = _pcache_observe(objs[start], types)
+                _pcache_cmp(ctx, case, got, expected(start), start, "first-built, asked before the other exists")
+            _pcache_between(ctx, case)
+    for start in seq:
+        _pcache_cmp(ctx, case, _pcache_observe(objs[start], types), expected(start), start, "both built")
+    # and a third build of each after the other's entries are cached
+    for start in seq:
+        _pcache_cmp(ctx, case, _pcache_observe(_pcache_build(case, start), types), expected(start), start, "rebuilt after both")
+    del Parent
+
+
+def _pcache_between(ctx, case):
+    if case["between"] == "evict-storm":
+        evict_storm(ctx)
+    elif case["between"] == "cache-clear":
+        cache_clear(ctx, random.Random(0))
+
+
+def _pcache_cmp(ctx, case, got, want, start, when):
+    norm_got = {k: (list(v) if isinstance(v, tuple) else v) for k, v in got.items()}
+    norm_want = {k: (list(v) if isinstance(v, tuple) else v) for k, v in want.items()}
+    bad = sorted(k for k in norm_want if norm_got.get(k) != norm_want[k])
+    ctx.check("hist.parent-cache", not bad, key=("kwarg-chain", "deep" if start == 0 else "shallow", case["order"], when, tuple(b.split(":")[0] for b in bad)),
+              style=case["style"], hierarchy="deep" if start == 0 else f"shallow (starts at level {start})", order=case["order"], between=case["between"],
+              when=when, differing=bad, got={k: norm_got.get(k) for k in bad}, want={k: norm_want[k] for k in bad})
 
 
 def _pmode(case):
@@ -480,6 +643,8 @@ def _pmode(case):
 
 
 def run_case(case, ctx):
+    if case["kind"] == "pcache":
+        return run_pcache(case, ctx)
     rng = random.Random(case["hseed"])
     kind = case["kind"]
     pmode = _pmode(case) + ("+cut" if case.get("cut", "whole") != "whole" else "")
@@ -761,9 +926,17 @@ def classify(v):
     `sequence_type` / `parent_type` / repr report afterwards.  Recognised by re-deriving it from the witness: the two answers
     are both regular answers and become identical once every SequenceType member is replaced by its string value (and they
     are not identical before).  Any other difference - another value, another exception - stays a violation."""
+    d = v.get("detail") or {}
+    if v.get("monitor") == "hist.parent-cache":
+        # K43: the memoised call Parent(location=<SingleInterval L>) is looked up by equality of L; SingleInterval.__hash__ digests
+        # only the parent's id and __eq__ goes through Parent.__eq__, which tolerates an ancestor chain that only one side has -
+        # so two such calls whose locations differ only in the ancestry of their parent share one cache entry.  Recognised from
+        # the witness: this call site, and the two constructor arguments compare equal and hash equal although built differently.
+        if d.get("style") == "location-parent" and d.get("constructor_args_compare_equal") is True and d.get("constructor_args_hash_equal") is True:
+            return "K43-parent-cache-merges-locations-whose-parents-differ-only-in-ancestry"
+        return None
     if v.get("monitor") not in ("hist.twin", "hist.repeat"):
         return None
-    d = v.get("detail") or {}
     a, b = d.get("full_a"), d.get("full_b")
     if isinstance(a, str) and isinstance(b, str):
         import json
